@@ -380,9 +380,9 @@ func (*DataProcessor).applyHavingFilter
   atreturn case-in-any-letter-case-selects-the-case-evaluator: ite(strings.Contains(strings.ToUpper(old(dp.stream.config.Having)), "CASE"), $viaCase == 1 && $viaCond == 0, $viaCase == 0 && $viaCond == 1)
 
 // HAVING with a CASE expression: the expression is built from the HAVING text (backticks rewritten), every group is
-// evaluated on its own row, and a group is kept exactly when the value is a positive number, a non-empty text or
-// any other non-NULL value; an evaluation error or NULL drops the group
-pred caseKeeps(err, isNull, v) := err == nil && !isNull && v != nil && (hasType(v, float64) ==> realval(v) > 0.0) && (hasType(v, string) ==> strval(v) != "")
+// evaluated on its own row, and a group is kept exactly when the value is a positive number, a non-empty text, the
+// boolean true (a comparison over the CASE value) or any other non-NULL value; an evaluation error or NULL drops the group
+pred caseKeeps(err, isNull, v) := err == nil && !isNull && v != nil && (hasType(v, float64) ==> realval(v) > 0.0) && (hasType(v, string) ==> strval(v) != "") && (hasType(v, bool) ==> boolval(v))
 
 func (*DataProcessor).applyHavingWithCaseExpression
   props C07 C01 C03 C05 C08 C09 C10 C12 C15 C17 C20 C13
